@@ -211,7 +211,7 @@ def corpus_event(path, naming_cls, full_bound):
     stats_path = path[:-4] + '.statistics'
     stats = parse_statistics(stats_path) if os.path.exists(stats_path) else None
     ev, model = read_event('xml', path, nm, action='ReadCorpus',
-                           args={'file': os.path.relpath(path, '/repo'), 'has_stats': stats is not None,
+                           args={'file': os.path.relpath(path, os.environ.get('VERIF_REPO', '/repo')), 'has_stats': stats is not None,
                                  'stats': stats or ZERO_STATS})
     summary = summarize(ev['post']) if ev['out'] == 'value' else dict(ZERO_STATS)
     ev['ret']['summary'] = summary
